@@ -172,6 +172,7 @@ type c35Run struct {
 	timedOut map[int]bool
 	formSeen map[int]string      // request -> rendering of the form the handler obtained ("" if none, "ERR" on error)
 	expected map[int]*c35Form
+	opsDone  map[int]int // request -> number of multipart operations the handler already performed
 }
 
 var c35cur *c35Run
@@ -214,16 +215,32 @@ func c35Hook(where string, ctx *fasthttp.RequestCtx) {
 				n := r.observe("parse")
 				if err != nil {
 					r.events = append(r.events, "Q")
-					r.formSeen[r.req] = "ERR"
 				} else {
 					r.events = append(r.events, fmt.Sprintf("P%d", n))
-					r.formSeen[r.req] = c35Render(f)
+					if r.opsDone[r.req] == 0 { // only the first operation sees an untouched body / pre-parsed form
+						r.formSeen[r.req] = c35Render(f)
+					}
 				}
+				r.opsDone[r.req]++
+			case "ml": // parse with a body-size limit that large uploads exceed: fasthttp removes what ReadForm created
+				f, err := ctx.MultipartFormWithLimit(20000)
+				n := r.observe("parse")
+				if err != nil {
+					r.events = append(r.events, "Q")
+				} else {
+					r.events = append(r.events, fmt.Sprintf("P%d", n))
+					if r.opsDone[r.req] == 0 {
+						r.formSeen[r.req] = c35Render(f)
+					}
+				}
+				r.opsDone[r.req]++
 			case "rm":
+				r.opsDone[r.req]++
 				ctx.Request.RemoveMultipartFormFiles()
 				r.observe("remove")
 				r.events = append(r.events, "X")
 			case "rb":
+				r.opsDone[r.req]++
 				ctx.Request.ResetBody()
 				r.observe("resetbody")
 				r.events = append(r.events, "B")
@@ -307,7 +324,7 @@ func c35Conn(a [][]byte) *Case {
 	c35TmpDir()
 	c35Clear()
 	connHook = c35Hook
-	run := &c35Run{firstReq: map[string]int{}, timedOut: map[int]bool{}, formSeen: map[int]string{}, expected: map[int]*c35Form{}}
+	run := &c35Run{firstReq: map[string]int{}, timedOut: map[int]bool{}, formSeen: map[int]string{}, expected: map[int]*c35Form{}, opsDone: map[int]int{}}
 	var stream bytes.Buffer
 	var specs []c35ReqSpec
 	failAt := 0 // 1-based request number whose pre-parse must fail (0 = none)
@@ -317,7 +334,7 @@ func c35Conn(a [][]byte) *Case {
 		num := i + 1
 		opsClean := ""
 		for _, op := range strings.Split(sp.ops, ".") {
-			if op == "mf" || op == "rm" || op == "rb" {
+			if op == "mf" || op == "rm" || op == "rb" || op == "ml" {
 				if opsClean != "" {
 					opsClean += "."
 				}
@@ -443,7 +460,7 @@ func c35Conn(a [][]byte) *Case {
 			// the handler's view of the form
 			for num, got := range run.formSeen {
 				exp := run.expected[num]
-				if exp == nil || got == "ERR" {
+				if exp == nil {
 					continue
 				}
 				if sp := specs[num-1]; sp.bad {
@@ -676,7 +693,7 @@ func init() {
 			return nil
 		},
 		Gen: func(r *Rand, tier string, emit func(string, ...[]byte)) {
-			n := 400
+			n := 300
 			bigN := 3
 			if tier == "thorough" {
 				n, bigN = 5000, 25
@@ -700,7 +717,7 @@ func init() {
 				}
 				return strings.Join(s, ",")
 			}
-			opsAll := []string{"mf", "mf", "rm", "rb", "mf"}
+			opsAll := []string{"mf", "mf", "rm", "rb", "mf", "ml"}
 			genReq := func(big bool) string {
 				if r.Chance(15) {
 					s := "plain=1"
@@ -763,13 +780,15 @@ func init() {
 				m := 1 + r.Intn(3)
 				for j := 0; j < m; j++ {
 					s := fmt.Sprintf("fields=%d&files=%d,%d&ops=mf", r.Intn(4), 9000+r.Intn(40000), r.Intn(20000))
-					switch r.Intn(5) {
+					switch r.Intn(6) {
 					case 0:
 						s += ".rm"
 					case 1:
 						s += ".rb.mf"
 					case 2:
 						s += ".mf"
+					case 3:
+						s = strings.Replace(s, "ops=mf", "ops=ml.mf", 1)
 					}
 					if r.Chance(15) {
 						s += "&te=1"
